@@ -17,8 +17,11 @@ def hrf_digest():
     import numpy as np
     from rsatoolbox.io.hrf import HRF
     h = np.asarray(HRF, dtype='<f8')
+    units = np.round(h * 1e7)
     return {'len': int(h.size), 'argmax': int(h.argmax()), 'max': float(h.max()),
-            'argmin': int(h.argmin()), 'min': float(h.min()), 'sha1': hashlib.sha1(h.tobytes()).hexdigest()}
+            'argmin': int(h.argmin()), 'min': float(h.min()), 'sha1': hashlib.sha1(h.tobytes()).hexdigest(),
+            # the table in units of 1e-7 (what the Lean side regenerates from the source text)
+            'units': [int(v) for v in units], 'exact_units': bool(np.abs(h * 1e7 - units).max() < 1e-6)}
 
 
 def dm_case(rng, form):
@@ -94,6 +97,25 @@ def impl(case):
     return {'cols': dm.T.tolist(), 'mask': [bool(m) for m in mask], 'dof': int(dof)}
 
 
+def response(case):
+    """the contract side of the model: the resampled, peak-scaled response (an independent
+    transcription of the documented steps) and its PCHIP interpolant placed at onset 0"""
+    import numpy as np
+    from scipy.interpolate import PchipInterpolator
+    from rsatoolbox.io.hrf import HRF
+    tr = float(F(case['tr']))
+    durs = sorted(float(F(e[2])) for e in case['events'])
+    m = len(durs)
+    med = durs[m // 2] if m % 2 else (durs[m // 2 - 1] + durs[m // 2]) / 2
+    kernel = np.convolve(HRF, np.ones(int(med / 0.1)))
+    fine_t = np.arange(kernel.size) * 0.1
+    coarse_t = np.arange(0, int((kernel.size - 1) * 0.1), tr)
+    resp = PchipInterpolator(fine_t, kernel)(coarse_t)
+    resp = resp / resp.max()
+    resp_t = np.arange(len(resp)) * tr
+    return resp, PchipInterpolator(resp_t, resp, extrapolate=True)
+
+
 def raw_columns(case):
     """independent transcription of the documented pipeline up to the un-normalised predictor
     columns: standard HRF (100 ms) convolved with a box of the median duration, resampled at
@@ -132,17 +154,24 @@ def raw_columns(case):
 
 def requests(case):
     if case['form'] == 'hrf_table':
-        return []
-    raw = raw_columns(case)
-    table = [[list(k), [rat(x) for x in col]] for k, (_, col) in raw.items()]
+        return [{'op': 'c20.hrf_table'}]
+    # the model places the response at every onset, decides what lies in its support, sums the
+    # blocks of a condition, normalises, flags and counts; only the interpolant P is tabulated
+    # here, at the arguments  t_i - onset  the model can ask for (exact rationals)
+    resp, interp = response(case)
+    tr = F(case['tr'])
+    xs = sorted({tr * i - F(e[1]) for e in case['events'] for i in range(case['n_vols'])})
+    vals = interp([float(x) for x in xs]) if xs else []
+    ptable = [[rat(x), rat(float(v))] for x, v in zip(xs, vals)]
     cf = None if case['confounds'] is None else [col for _, col in case['confounds']]
-    return [{'op': 'c20.dm', 'events': [[e[0], e[1]] for e in case['events']], 'table': table,
+    return [{'op': 'c20.dm', 'events': [[e[0], e[1]] for e in case['events']], 'tr': case['tr'],
+             'resp_len': int(len(resp)), 'ptable': ptable,
              'confounds': cf, 'n_vols': case['n_vols']}]
 
 
 def result(case, answers):
     if case['form'] == 'hrf_table':
-        return dict(HRF_PINNED)
+        return dict(HRF_PINNED, units=answers[0], exact_units=True)
     a = answers[0]
     if isinstance(a, dict) and 'cols' in a:
         return {'cols': [[float(F(x)) if x is not None else float('nan') for x in c] for c in a['cols']],
